@@ -414,8 +414,9 @@ def main_c14(tier, seed, pid="C14"):
         rows = list(range(it.n, it.n + m))
         if rng.random() < 0.4:
             rows = rows + [rng.choice(rows) for _ in range(rng.randint(1, 3))]   # duplicates in the batch
-        if rng.random() < 0.3:
-            rows = [tr[rng.randrange(nt)]] + rows                                  # a training sample as query
+        if rng.random() < 0.3 or it.X is None:
+            # training samples as queries (in pre-computed mode always: their row index equals a training node's)
+            rows = [tr[rng.randrange(nt)] for _ in range(1 if it.X is not None else 3)] + rows
         try:
             preds, clus = knn_predict_rows(opf, it, rows, which)
         except Exception as ex:
